@@ -74,10 +74,11 @@ Policy(t) ==
             [] c = "A" -> L("PREFERRED", "REQUIRED", "OPTIONAL")
             [] OTHER   -> L("OPTIONAL", "OPTIONAL", "OPTIONAL")]
 
-Perms == [c \in AuthCmds |->
+Perms == [c \in AllCmds |->
             CASE c = "R" -> {"READ"}
               [] c = "W" -> {"WRITE"}
-              [] OTHER   -> {"ADMIN", "DAEMON"}]
+              [] c = "A" -> {"ADMIN", "DAEMON"}
+              [] OTHER   -> {}]
 
 AllUsers == {"alice", "bob", Anon}
 
